@@ -480,7 +480,7 @@ fn c24(args: &Args, report: &Report) {
         return;
     }
     let shards = 16usize;
-    let per_shard: u64 = if selftest != 0 { 40 } else { args.by_tier(500, 3000) };
+    let per_shard: u64 = if selftest != 0 { 40 } else { args.by_tier(400, 3000) };
     {
         let report = report.clone();
         let args2 = args.clone();
